@@ -48,6 +48,16 @@ static size_t g_end;             /* end of the literal as an index (valid after 
 /* largest text considered: the code counts fraction digits in an `int` */
 #define C12_MAXTEXTOBJ ((size_t)1 << 30)
 
+/* sign bit of a double (-0.0 included); usable from ghost statements in all three compilation modes */
+static inline int spec_signd(double x)
+{
+#ifdef REPLAY
+    return __builtin_signbit(x) != 0;
+#else
+    return __CPROVER_signd(x);
+#endif
+}
+
 #define SPEC_NEED(k) __CPROVER_assume((k) < g_n)
 #define SPEC_ISDIGIT(ch) ((ch) >= '0' && (ch) <= '9')
 
@@ -186,7 +196,7 @@ static inline int64_t spec_atof_dexp(void)
 #define SPEC_ISHEXLETTER(ch) (((ch) >= 'a' && (ch) <= 'f') || ((ch) >= 'A' && (ch) <= 'F'))
 
 /* start of the text.  Regions: kf_gate  = the first character is neither a digit nor '-' (the function returns 0
- * at once and stores nothing);  kf_end = the text starts with [-]digit or with "-." (igris_atou32/64 report
+ * at once and stores nothing);  kf_end = a digit or a point follows the optional sign, i.e. igris_atou32/64 are called and their *end is used (they report
  * *end one character too early, C07) */
 static inline void spec_atof32_begin(int kf_gate, int kf_end)
 {
@@ -196,8 +206,8 @@ static inline void spec_atof32_begin(int kf_gate, int kf_end)
     spec_atof_sign();
     if (g_t[g_i] == '.')
         SPEC_NEED(g_i + 1); /* ".5" vs ".": the character behind the point decides (same need as in spec_atof_point) */
-    if (!gate) {
-        int r_end = SPEC_ISDIGIT(g_t[g_i]) || (g_neg && g_t[g_i] == '.');
+    {
+        int r_end = SPEC_ISDIGIT(g_t[g_i]) || g_t[g_i] == '.';
         __CPROVER_assume(kf_end == 0 ? 1 : kf_end == 1 ? !r_end : r_end);
     }
 }
